@@ -259,12 +259,17 @@ func (p *Posix) doesBucketAndObjectExist(bucket, object string) error {
 		return fmt.Errorf("stat bucket: %w", err)
 	}
 
-	_, err = os.Stat(filepath.Join(bucket, object))
+	fi, err := os.Stat(filepath.Join(bucket, object))
 	if errors.Is(err, fs.ErrNotExist) || errors.Is(err, syscall.ENOTDIR) {
 		return s3err.GetAPIError(s3err.ErrNoSuchKey)
 	}
 	if err != nil {
 		return fmt.Errorf("stat object: %w", err)
+	}
+	// a key with a trailing "/" names a directory object, any other key a
+	// file object: the stored entry of the other kind is a different key
+	if strings.HasSuffix(object, "/") != fi.IsDir() {
+		return s3err.GetAPIError(s3err.ErrNoSuchKey)
 	}
 
 	return nil
@@ -1322,7 +1327,7 @@ func (p *Posix) CreateMultipartUpload(ctx context.Context, mpu s3response.Create
 
 	// set object tagging
 	if tags != nil {
-		err := p.PutObjectTagging(ctx, bucket, filepath.Join(objdir, uploadID), tags)
+		err := p.putAttrTags(bucket, filepath.Join(objdir, uploadID), tags)
 		if err != nil {
 			// cleanup object if returning error
 			os.RemoveAll(filepath.Join(tmppath, uploadID))
@@ -4836,12 +4841,9 @@ func (p *Posix) DeleteBucketTagging(ctx context.Context, bucket string) error {
 }
 
 func (p *Posix) GetObjectTagging(_ context.Context, bucket, object string) (map[string]string, error) {
-	_, err := os.Stat(bucket)
-	if errors.Is(err, fs.ErrNotExist) {
-		return nil, s3err.GetAPIError(s3err.ErrNoSuchBucket)
-	}
+	err := p.doesBucketAndObjectExist(bucket, object)
 	if err != nil {
-		return nil, fmt.Errorf("stat bucket: %w", err)
+		return nil, err
 	}
 
 	return p.getAttrTags(bucket, object)
@@ -4873,16 +4875,19 @@ func (p *Posix) getAttrTagsFile(f *os.File, bucket, object string) (map[string]s
 }
 
 func (p *Posix) PutObjectTagging(_ context.Context, bucket, object string, tags map[string]string) error {
-	_, err := os.Stat(bucket)
-	if errors.Is(err, fs.ErrNotExist) {
-		return s3err.GetAPIError(s3err.ErrNoSuchBucket)
-	}
+	err := p.doesBucketAndObjectExist(bucket, object)
 	if err != nil {
-		return fmt.Errorf("stat bucket: %w", err)
+		return err
 	}
 
+	return p.putAttrTags(bucket, object, tags)
+}
+
+// putAttrTags stores (or with nil tags removes) the tag set attribute of the
+// entry at bucket/object
+func (p *Posix) putAttrTags(bucket, object string, tags map[string]string) error {
 	if tags == nil {
-		err = p.meta.DeleteAttribute(bucket, object, tagHdr)
+		err := p.meta.DeleteAttribute(bucket, object, tagHdr)
 		if errors.Is(err, fs.ErrNotExist) || errors.Is(err, syscall.ENOTDIR) {
 			return s3err.GetAPIError(s3err.ErrNoSuchKey)
 		}
